@@ -837,7 +837,7 @@ class FlowProposal(RejectionProposal):
         x_prime = empty_structured_array(x.size, dtype=self.x_prime_dtype)
         log_J = np.zeros(x_prime.size)
 
-        if x.size == 1:
+        if x.ndim == 0:
             x = np.array([x], dtype=x.dtype)
 
         x, x_prime, log_J = self._reparameterisation.reparameterise(
